@@ -133,7 +133,7 @@ def main():
     c = copy.deepcopy(evs)
     c7(c)
     got = validate(work, "TraceConc", c)
-    good = base == [] and any(w == "mutual-exclusion" for _, w in got)
+    good = base == [] and any(w in ("mutual-exclusion", "lock-never-released") for _, w in got)
     ok = ok and good
     rows.append(("one rs.unlock hook event dropped", "TraceConc", "accepted" if base == [] else "REJECTED", "rejected: %s" % got[0][1] if got else "NOT NOTICED", "ok" if good else "FAIL"))
     c = copy.deepcopy(evs)
